@@ -260,6 +260,10 @@ def run(tier):
                 nontriv += 1
     vd.cov["distinct_nontrivial"] = nontriv
     vd.cov["traces_validated_against_impl"] = nontriv
+    # location attributes: one element per address range with the stored operations and operands -- the
+    # machinery of C17 (tla/Loc.tla: menu pairs and the complete operand table, every form and version)
+    import c17
+    c17.locations(vd, drv, wd, rng, tier)
     vd.sample({"descriptor": use[0]["d"], "documented": use[0]["documented"]})
     return vd.finish(rule="tla/AtVal.tla: decision table of DW_AT_const_value over form x holder (variable / template value "
                      "parameter / enumerator) x type chain shape (none, base, typedef, cv+typedef, enum with / without underlying "
@@ -268,7 +272,8 @@ def run(tier):
                      "group per descriptor is generated and `@AT_const_value` / `attribute value` compared on value, sign and domain; "
                      "plus %d attributes of the other classes (strings incl. high bytes and .debug_str, flags, addresses, "
                      "enumerated attributes, references in three forms, sec_offset); every enumerated attribute of AtVal!EnumAttrs "
-                     "with every enumerator of its family from <dwarf.h> in three constant forms (%d DIEs)" % (len(descs), len(specs), len(eexp)),
+                     "with every enumerator of its family from <dwarf.h> in three constant forms (%d DIEs); location attributes through "
+                     "the expressions of tla/Loc.tla (shared with C17): elements, operations and operands of every operation of the table" % (len(descs), len(specs), len(eexp)),
                      exhaustive=(tier == "thorough"))
 
 def replay(path):
